@@ -287,7 +287,7 @@ def add_offsets(rng, e, p=0.5, offs=(-2, -1, 1, 2, 3)):
     """wrap some state/control leaves of e into next/prev/offset placeholders"""
     if not isinstance(e, list):
         return e
-    if e[0] == "s" and e[1] in ("x", "u") and rng.random() < p:
+    if e[0] == "s" and e[1] in ("x", "u", "pc", "pp", "vc", "vp") and rng.random() < p:
         n = rng.choice(offs)
         r = ["off", n, e]
         if n == 1 and rng.random() < 0.5:
